@@ -25,9 +25,10 @@ TEXT = {
  },
 
  "C10": {
-  "level": "Machine-checked proofs (Coq, no axioms): restart keeps term and vote, keeps every flushed entry, resets a log left behind its snapshot, "
-           "is contiguous with the snapshot from every state including the intermediate states of snapshot installation (the pre-repair restart is "
-           "refuted by a witness), and starts as a follower with the membership of log-or-snapshot; segment-file level crash consistency is C14. "
+  "level": "Machine-checked proofs (Coq, no axioms): restart keeps term and vote, keeps every flushed entry of a log that connects to its snapshot, "
+           "resets a log left behind its snapshot or detached from it, and is contiguous with the snapshot from EVERY state - whatever a crash "
+           "left, including the intermediate states of snapshot installation and of Log.Reset (both pre-repair restarts, D9 and D19, are refuted by "
+           "witnesses) - and starts as a follower with the membership of log-or-snapshot; segment-file level crash consistency is C14. "
            "Tie and search: on real nodes the storage directory is copied at every verifPoint of every storage-mutating handler and every copy is "
            "restarted with the real New and judged. Known finding D10 (stale lock file) is reported as KNOWN-FINDING.",
   "design_ref": "DESIGN.md 5 (C10)", "note": NODE_NOTE + " Process-crash model: completed file operations survive, unflushed log tail lost.",
@@ -160,10 +161,13 @@ TEXT = {
  "C15": {
   "level": "Machine-checked proofs (Coq, no axioms) of the task ledger of the node model for every state and event: tasks pending before an event "
            "plus the tasks it submits equal, as a multiset, the tasks pending after it plus the tasks it answered (so no task is answered twice or "
-           "dropped over any history, proved as answered_at_most_once with a 10-event witness history); the end of leadership leaves nothing pending "
+           "dropped over any history, proved as answered_at_most_once with witness histories; covers changeConfig tasks with membership actions as "
+           "long as no single action leaves the leader the only voter - the immediate-commit path is excluded with a machine-checked reason); the "
+           "end of leadership leaves nothing pending "
            "and shutdown answers ServerClosed. PARTIAL by nature: data races, concurrent map access, deadlock, goroutine leaks and shutdown latency "
            "live in the Go runtime; no executable Gallina model exhibits them. They are exercised (supporting search only) by the simulator's panic "
-           "monitor on every event of every driver and by the live driver (real Serve, goroutines, timers: every task completes, Shutdown returns, "
+           "monitor on every event of every driver, the stall watchdog (a handler that never returns), the drift check on the mirrored control "
+           "flow of stateLoop, and the live driver (real Serve, goroutines, timers: every task completes, Shutdown returns, "
            "no panic).",
   "design_ref": "DESIGN.md 5 (C15)", "note": NODE_NOTE,
   "technique": "Coq proof of the task ledger over all node events + differential correspondence on task replies + panic monitor + live cluster driver",
